@@ -1,6 +1,7 @@
 package fs
 
 import (
+	"bytes"
 	"context"
 	"encoding/base64"
 	"errors"
@@ -164,6 +165,11 @@ func (fdb *fsDb) Close(ctx context.Context) error {
 // create a key safe for the filesystem.
 func (fdb *fsDb) pathFor(ctx context.Context, lk *db.LookupKey) (fsLookupKey, error) {
 	var flk fsLookupKey
+	// the name is a single file inside the store directory: path.Join would
+	// resolve ".." and descend into sub directories
+	if bytes.ContainsRune(lk.Default[1:], '/') || bytes.ContainsRune(lk.Translation, '/') {
+		return flk, fmt.Errorf("path separator in key or session id: %x", lk.Default)
+	}
 	lk.Default[0] += 0x30
 	flk.Default = path.Join(fdb.dir, string(lk.Default))
 	if lk.Translation != nil {
